@@ -401,6 +401,20 @@ fn sketches(ctx: &Ctx, which: usize, rep: &mut Report) {
                     }
                 }
                 chk!(rep, &m, "after-clear-refill-cycles", base, done, wit.clone());
+                // whole streams through Extend (exact and inexact size hints) into a fresh and into a
+                // cleared sampler: a buffer sized from the batch instead of from k shows only here
+                drop(s);
+                base = alloc::live();
+                let mut s: ReservoirSampling<u64, CtlRng> = ReservoirSampling::new(k, CtlRng::fast(2));
+                let big = *lens.last().unwrap_or(&100_000) as u64;
+                s.extend(0..big);
+                chk!(rep, &m, "after-extend-of-the-whole-stream", base, big as usize, wit.clone());
+                s.clear();
+                s.extend((0..big).filter(|x| x % 3 != 0));
+                chk!(rep, &m, "after-clear-and-extend(filtered)", base, big as usize, wit.clone());
+                s.clear();
+                s.extend((0..big).collect::<Vec<u64>>());
+                chk!(rep, &m, "after-clear-and-extend(vec)", base, big as usize, wit.clone());
             }
         }
         4 => {
